@@ -255,6 +255,12 @@ Definition parse_is_circuit (aux : nat) (c : list instr) (cs : list cinstr) : bo
   | _, _ => false
   end.
 
+(* the bookkeeping hypothesis of the theorem (every record a feedback instruction refers to exists), evaluated in the one-element ring:
+   it only looks at counters and lane flags, which never depend on amplitudes (KrausSem.skel_step).  Used by the harness to report how
+   many circuits satisfy every hypothesis of parse_kraus. *)
+Definition ccircuit_ok_unit (n : nat) (cs : list cinstr) : bool :=
+  ccircuit_ok unit tt tt (fun _ _ => tt) (fun _ _ => tt) (fun _ => tt) (fun _ => tt) tt 0%Qc 0%Qc 0%Qc (kinit unit tt tt n) cs.
+
 Section PK.
   Variable R : Type.
   Variables (rO rI : R) (radd rmul rsub : R -> R -> R) (ropp : R -> R).
